@@ -1,6 +1,7 @@
-"""Access to the implementation under test with reused worker objects (the code path the public
-functions themselves use; Parser() construction costs ~150 ms, so objects are kept per option set).
-C12 separately establishes reuse == fresh; every property also runs a public-API binding pass."""
+"""Access to the implementation under test.  loads / dumps run the PUBLIC functions mappyfile.loads / mappyfile.dumps themselves (so whatever
+those wrappers do to the text, the options or the result is part of every check); only the constructors of the worker classes, under the names
+mappyfile.utils looks them up by, are memoised per argument set for the duration of the call (Parser() construction costs ~150 ms,
+PrettyPrinter() ~3 ms).  C12 separately establishes reuse == fresh; every property also runs a binding pass with nothing memoised."""
 from __future__ import annotations
 
 import logging
@@ -41,6 +42,39 @@ def todict(include_position=False, include_comments=False):
 _INC = None
 
 
+class _Memo:
+    """stands in for a worker class inside mappyfile.utils for the duration of one call: one object per argument set"""
+
+    def __init__(self, factory):
+        self.factory = factory
+
+    def __call__(self, *a, **kw):
+        return self.factory(*a, **kw)
+
+
+class scoped:
+    """with scoped(): the names Parser / MapfileToDict / PrettyPrinter in mappyfile.utils construct memoised objects"""
+
+    def __enter__(self):
+        import mappyfile.utils as U
+
+        self.U = U
+        self.saved = {n: getattr(U, n, None) for n in ("Parser", "MapfileToDict", "PrettyPrinter")}
+        if self.saved["Parser"] is not None:
+            U.Parser = _Memo(lambda expand_includes=True, include_comments=False: parser(expand_includes, include_comments))
+        if self.saved["MapfileToDict"] is not None:
+            U.MapfileToDict = _Memo(lambda include_position=False, include_comments=False: todict(include_position, include_comments))
+        if self.saved["PrettyPrinter"] is not None:
+            U.PrettyPrinter = _Memo(lambda **opts: printer(**opts))
+        return self
+
+    def __exit__(self, *exc):
+        for n, v in self.saved.items():
+            if v is not None:
+                setattr(self.U, n, v)
+        return False
+
+
 def loads(text, expand_includes=None, include_position=False, include_comments=False, fn=None):
     """expand_includes=None: the public default (True: the include pre-pass runs over the text) unless the text itself contains a
     line starting with INCLUDE - then the directives are kept as data (corpus files whose include targets may not exist)"""
@@ -51,8 +85,28 @@ def loads(text, expand_includes=None, include_position=False, include_comments=F
 
             _INC = re.compile(r"(?im)^\s*include")
         expand_includes = not _INC.search(text)
-    ast = parser(expand_includes, include_comments).parse(text, fn)
-    return todict(include_position, include_comments).transform(ast)
+    if fn is not None:
+        ast = parser(expand_includes, include_comments).parse(text, fn)
+        return todict(include_position, include_comments).transform(ast)
+    import mappyfile
+
+    with scoped():
+        return mappyfile.loads(text, expand_includes=expand_includes, include_position=include_position, include_comments=include_comments)
+
+
+def open_(fn, **flags):
+    """the public mappyfile.open with memoised worker constructors"""
+    import mappyfile
+
+    with scoped():
+        return mappyfile.open(fn, **flags)
+
+
+def load_(fp, **flags):
+    import mappyfile
+
+    with scoped():
+        return mappyfile.load(fp, **flags)
 
 
 def printer(**opts):
@@ -65,7 +119,10 @@ def printer(**opts):
 
 
 def dumps(d, **opts):
-    return printer(**opts).pprint(d)
+    import mappyfile
+
+    with scoped():
+        return mappyfile.dumps(d, **opts)
 
 
 def validator():
